@@ -257,6 +257,11 @@ func cmdWire(args []string) int {
 	defer out.close()
 
 	one := func(shape obj, isBig bool) {
+		defer func() {
+			if rec := recover(); rec != nil { // building, serialising or parsing a message of the grammar never panics
+				out.emit(obj{"shape": shape, "big": isBig, "before": obj{"panic": fmt.Sprint(rec)}, "after": obj{"panic": ""}, "after2": obj{"panic": ""}, "vb": []bool{}, "va": []bool{}})
+			}
+		}()
 		g := &wireGen{rnd: rnd, sigLen: lenClasses[rnd.Intn(len(lenClasses))], inst: primitives.InstanceId(numClasses[rnd.Intn(len(numClasses))]), seed: rnd.Uint64()}
 		if rnd.Intn(3) == 0 {
 			g.sigLen = rnd.Intn(257)
